@@ -108,10 +108,15 @@ fn not_rendering(h: &FrameRenderHandle<S>) -> bool {
 // shapes); each of the five states satisfying Inv is therefore a separate instantiation -- together they
 // are exhaustive.  0 None, 1 Done, 2 Blended, 3 Err(e), 4 ErrTaken.  (InProgress(cache) behaves as None in
 // every match arm of the protocol code; building a RenderCache needs a HashMap, which CBMC cannot afford.)
+// Unwind bounds: the protocol code has one loop (wait_until_render) whose every iteration returns or waits, so no
+// back edge is taken: unwind(1) suffices and keeps CBMC from unrolling the (infeasible, but symbolically
+// explored) drop glue of FrameRender::InProgress. blend() additionally clones the 4-element reference array
+// (4 back edges): unwind(5).
 macro_rules! handle_contract {
-    ($name:ident, $st:expr, |$h:ident| $body:block) => {
+    ($name:ident, $st:expr, |$h:ident| $body:block) => { handle_contract!($name, $st, 1, |$h| $body); };
+    ($name:ident, $st:expr, $unwind:expr, |$h:ident| $body:block) => {
         #[kani::proof]
-        #[kani::unwind(3)]
+        #[kani::unwind($unwind)]
         #[kani::stub(std::sync::Condvar::wait, stub_wait)]
         #[kani::stub(std::sync::Condvar::notify_all, stub_notify_all)]
         #[kani::stub(jxl_frame::Frame::image_header, stub_image_header)]
@@ -159,7 +164,7 @@ run_contract!(handle_run_errtaken, 4);
 
 macro_rules! blend_contract {
     ($name:ident, $st:expr) => {
-        handle_contract!($name, $st, |h| {
+        handle_contract!($name, $st, 5, |h| {
             let img = RenderedImage::new(Arc::clone(&h));
             let pool = JxlThreadPool::none();
             let r = img.blend(Some(Region::with_size(8, 8)), &pool);
@@ -199,7 +204,7 @@ take_reset_contract!(handle_take_errtaken, 4);
 
 // Two-step composition (a failed blend followed by another render request): the second call returns,
 // i.e. never waits (stub_wait panics if it would block forever).
-handle_contract!(handle_failed_blend_then_render_returns, 1, |h| {
+handle_contract!(handle_failed_blend_then_render_returns, 1, 5, |h| {
     let img = RenderedImage::new(Arc::clone(&h));
     let pool = JxlThreadPool::none();
     let r1 = img.blend(Some(Region::with_size(8, 8)), &pool);
